@@ -100,8 +100,9 @@ class MidiTrack(object):
                 self.set_deltatime(self.delay)
                 self.delay = 0
                 if hasattr(x[2], "bpm"):
-                    self.set_deltatime(0)
+                    # the tempo change carries the pending delay of preceding rests
                     self.set_tempo(x[2].bpm)
+                    self.set_deltatime(0)
                 self.play_NoteContainer(x[2])
                 self.set_deltatime(self.int_to_varbyte(tick))
                 self.stop_NoteContainer(x[2])
@@ -140,6 +141,8 @@ class MidiTrack(object):
     def set_instrument(self, channel, instr, bank=1):
         """Add a program change and bank select event to the track_data."""
         self.track_data += self.select_bank(channel, bank)
+        # the pending delta time has been written with the first event
+        self.set_deltatime(0)
         self.track_data += self.program_change_event(channel, instr)
 
     def header(self):
